@@ -115,6 +115,8 @@ func (s c11stmt) goSrc(bare bool) string {
 			return s.E.goSrc()
 		}
 		return "_ = " + s.E.goSrc()
+	case 'u':
+		return "fmt.Println(" + c11pkgs[s.X].Expr + ")"
 	}
 	panic("stmt kind")
 }
@@ -131,6 +133,8 @@ func (s c11stmt) coq() string {
 		return "(SPrint " + s.E.coq() + ")"
 	case 'e':
 		return "(SExpr " + s.E.coq() + ")"
+	case 'u':
+		return fmt.Sprintf("(SUse %d)", s.X)
 	}
 	panic("stmt kind")
 }
@@ -165,6 +169,8 @@ func (it c11item) goSrc(bare bool) string {
 		return c11funcSrc(fmt.Sprintf("f%d", it.N), false, it.Body, it.Ret)
 	case 's':
 		return it.S.goSrc(bare)
+	case 'i':
+		return fmt.Sprintf("import %q", c11pkgs[it.N].Path)
 	}
 	panic("item kind")
 }
@@ -187,6 +193,8 @@ func (it c11item) coq() string {
 		return fmt.Sprintf("(IFunc %d (%s, %s))", it.N, coqList(ss), ret)
 	case 's':
 		return "(IStmt " + it.S.coq() + ")"
+	case 'i':
+		return fmt.Sprintf("(IImport %d)", it.N)
 	}
 	panic("item kind")
 }
@@ -235,6 +243,39 @@ func (m *c11memo) chunks(cs [][]c11item) string {
 	return m.def("s", "list chunk", coqList(l))
 }
 
+// steps renders what is fed as a list of Model.step
+func (m *c11memo) steps(pl *c11plan) string {
+	var l []string
+	chunk := func(c []c11item) string {
+		var its []string
+		for _, it := range c {
+			its = append(its, m.def("i", "item", it.coq()))
+		}
+		return m.def("c", "chunk", coqList(its))
+	}
+	if pl.Steps != nil {
+		for _, st := range pl.Steps {
+			switch st.Kind {
+			case 'f':
+				l = append(l, fmt.Sprintf("(SFile %d %s)", st.Name, chunk(st.Chunk)))
+			case 'd':
+				l = append(l, fmt.Sprintf("(SDir %s)", chunk(st.Chunk)))
+			default:
+				l = append(l, fmt.Sprintf("(SEval %s)", chunk(st.Chunk)))
+			}
+		}
+	} else {
+		for k, c := range pl.Chunks {
+			if pl.Mode == c11EvalPath {
+				l = append(l, fmt.Sprintf("(SFile %d %s)", k+1, chunk(c)))
+			} else {
+				l = append(l, fmt.Sprintf("(SEval %s)", chunk(c)))
+			}
+		}
+	}
+	return m.def("t", "list step", coqList(l))
+}
+
 func c11chunkSrc(c []c11item) string {
 	var l []string
 	for _, it := range c {
@@ -250,7 +291,8 @@ type c11gen struct {
 	vars   []int // declared int variables
 	ptrs   []int
 	funcs  []int
-	direct bool // initialisers may mention variables directly (region var-xdep)
+	direct bool  // initialisers may mention variables directly (region var-xdep)
+	imps   []int // packages imported so far (mixed sessions only)
 }
 
 func (g *c11gen) konst() *c11expr { return &c11expr{K: 'c', Z: int64(g.r.intn(9)) - 2} }
@@ -313,6 +355,10 @@ func (g *c11gen) stmts(n int, inFunc bool, setPtrs []int) ([]c11stmt, []int) {
 	var out []c11stmt
 	set := append([]int(nil), setPtrs...)
 	for i := 0; i < n; i++ {
+		if len(g.imps) > 0 && g.r.chance(18) {
+			out = append(out, c11stmt{K: 'u', X: g.imps[g.r.intn(len(g.imps))]})
+			continue
+		}
 		switch k := g.r.intn(10); {
 		case k < 3 && len(g.vars) > 0:
 			out = append(out, c11stmt{K: '=', X: g.vars[g.r.intn(len(g.vars))], E: g.expr(inFunc, g.vars, set)})
@@ -417,9 +463,17 @@ func c11cut(r *rng, l []c11item, avg int) [][]c11item {
 
 func c11fileSrc(items []c11item) string {
 	var b strings.Builder
-	b.WriteString("package main\n\nimport \"fmt\"\n\nvar _ = fmt.Sprint\n\n")
+	b.WriteString("package main\n\nimport \"fmt\"\n")
 	for _, it := range items {
-		b.WriteString(it.goSrc(false) + "\n")
+		if it.K == 'i' {
+			b.WriteString(it.goSrc(false) + "\n")
+		}
+	}
+	b.WriteString("\nvar _ = fmt.Sprint\n\n")
+	for _, it := range items {
+		if it.K != 'i' {
+			b.WriteString(it.goSrc(false) + "\n")
+		}
 	}
 	return b.String()
 }
@@ -429,11 +483,23 @@ func c11fileSrc(items []c11item) string {
 func c11refSrc(decls []c11item, body []string, vars, ptrs []int, funcVars []int) string {
 	var b strings.Builder
 	b.WriteString("package main\n\nimport \"fmt\"\n\n")
+	seenImp := map[int]bool{}
+	var keep []string
+	for _, it := range decls {
+		if it.K == 'i' && !seenImp[it.N] {
+			seenImp[it.N] = true
+			fmt.Fprintf(&b, "import %q\n", c11pkgs[it.N].Path)
+			keep = append(keep, "var _ = "+c11pkgs[it.N].Keep)
+		}
+	}
+	b.WriteString(strings.Join(keep, "\n") + "\n")
 	for _, f := range funcVars {
 		fmt.Fprintf(&b, "var f%d func(a int) int\n", f)
 	}
 	for _, it := range decls {
-		b.WriteString(it.goSrc(false) + "\n")
+		if it.K != 'i' {
+			b.WriteString(it.goSrc(false) + "\n")
+		}
 	}
 	b.WriteString("func ptrName(p *int) int {\n\tswitch p {\n")
 	for _, v := range vars {
@@ -530,7 +596,16 @@ func c11parseInts(s string) ([]int64, bool) {
 	return out, true
 }
 
-var c11fmt = interp.Exports{"fmt/fmt": stdlib.Symbols["fmt/fmt"]}
+// packages of the import dimension: [SUse k] prints Expr, whose value is Model.impval k
+var c11pkgs = map[int]struct{ Path, Expr, Keep string }{
+	1: {"strings", `strings.Count("aXbXc", "X")`, "strings.Count"},
+	2: {"strconv", `len(strconv.Itoa(12345))`, "strconv.Itoa"},
+	3: {"math/bits", `bits.Len(8)`, "bits.Len"},
+	4: {"unicode/utf8", `utf8.RuneCountInString("abcdefg")`, "utf8.RuneCountInString"},
+}
+
+var c11fmt = interp.Exports{"fmt/fmt": stdlib.Symbols["fmt/fmt"], "strings/strings": stdlib.Symbols["strings/strings"],
+	"strconv/strconv": stdlib.Symbols["strconv/strconv"], "math/bits/bits": stdlib.Symbols["math/bits/bits"], "unicode/utf8/utf8": stdlib.Symbols["unicode/utf8/utf8"]}
 
 type c11session struct {
 	i   *interp.Interpreter
@@ -638,10 +713,15 @@ var c11modeNames = []string{"Eval", "Compile+Execute", "CompileAST+Execute", "Ev
 
 // c11parseAST parses a chunk the way interp.parse does in incremental mode, with the interpreter's FileSet.
 func c11parseAST(i *interp.Interpreter, c []c11item, src string) (ast.Node, error) {
+	return c11parseASTNamed(i, c, src, "_.go")
+}
+
+// name: the source name in force (the caller of CompileAST chooses the name the chunk is parsed under).
+func c11parseASTNamed(i *interp.Interpreter, c []c11item, src, name string) (ast.Node, error) {
 	if c11isDeclChunk(c) {
-		return parser.ParseFile(i.FileSet(), "_.go", "package main;"+src, parser.DeclarationErrors)
+		return parser.ParseFile(i.FileSet(), name, "package main;"+src, parser.DeclarationErrors)
 	}
-	f, err := parser.ParseFile(i.FileSet(), "_.go", "package main; func main() {"+src+"\n}", parser.DeclarationErrors)
+	f, err := parser.ParseFile(i.FileSet(), name, "package main; func main() {"+src+"\n}", parser.DeclarationErrors)
 	if err != nil {
 		return nil, err
 	}
@@ -873,7 +953,8 @@ type c11plan struct {
 	GChunks [][]c11item
 	Vars    []int
 	Ptrs    []int
-	RefName string // key of the reference program
+	Steps   []c11step // mixed entry points; nil: Chunks fed through Mode
+	RefName string    // key of the reference program
 	ProgIdx int
 	// results
 	Obs []c11chunkObs
@@ -881,6 +962,13 @@ type c11plan struct {
 }
 
 func (pl *c11plan) input() map[string]any {
+	if pl.Steps != nil {
+		var steps []map[string]string
+		for _, st := range pl.Steps {
+			steps = append(steps, map[string]string{"entry": st.entryName(pl.FS), "source": st.src()})
+		}
+		return map[string]any{"kind": pl.Kind, "entry": "mixed", "fs": pl.FS, "steps": steps}
+	}
 	var srcs []string
 	for _, c := range pl.Chunks {
 		if pl.Mode == c11EvalPath {
@@ -906,9 +994,11 @@ func runC11(args []string) error {
 	distinct := distinctSet{}
 	nMain, nRerun, nXdep, nHist, nStale, nRich := 110, 14, 14, 30, 12, 1
 	nBlocks, nDirs := 40, 40
+	nMixed, nRel := 40, 2
 	if *tier == "thorough" {
 		nMain, nRerun, nXdep, nHist, nStale, nRich = 1500, 150, 150, 400, 150, 8
 		nBlocks, nDirs = 600, 400
+		nMixed, nRel = 600, 20
 	}
 
 	var plans []*c11plan
@@ -1083,6 +1173,46 @@ func runC11(args []string) error {
 		}
 	}
 
+	// ------------------------------------------------------------ F. sessions that mix the entry points
+	for i := 0; i < nMixed; i++ {
+		g := &c11gen{r: r.fork()}
+		p := g.programImp(4+g.r.intn(7), 2+g.r.intn(5))
+		progs = append(progs, p)
+		ref := fmt.Sprintf("p%05d", progIdx)
+		addRef(ref, c11refSrc(p.Decls, bodySrc(p.Body), p.Vars, p.Ptrs, nil), len(p.Vars), len(p.Ptrs))
+		whole := [][]c11item{p.wholeItemsImp()}
+		wpl := c11plan{Kind: "whole", Mode: c11Eval, Chunks: whole, GChunks: whole, Vars: p.Vars, Ptrs: p.Ptrs, RefName: ref, ProgIdx: progIdx}
+		add(&wpl)
+		rr := r.fork()
+		for c := 0; c < 3; c++ {
+			steps := c11mixedSession(rr, p)
+			region := ""
+			if bad := c11visible(steps); bad >= 0 {
+				// the session ends with the step that cannot see an import made under another source name
+				// (what a failed chunk leaves behind is outside the model)
+				region, steps = "import-scope", steps[:bad+1]
+			}
+			pl := c11plan{Region: region, Kind: "mixed", Mode: c11Eval, FS: []string{"mapfs", "dir"}[(i+c)%2], Steps: steps, GChunks: whole,
+				Vars: p.Vars, Ptrs: p.Ptrs, RefName: ref, ProgIdx: progIdx}
+			add(&pl)
+		}
+		progIdx++
+		// region dir-scope: the declarations as a directory, then a chunk calling one of its functions
+		if len(g.funcs) > 0 && i%3 == 0 {
+			call := c11stmt{K: 'p', E: &c11expr{K: 'f', N: g.funcs[rr.intn(len(g.funcs))], A: g.konst()}}
+			ref := fmt.Sprintf("p%05d", progIdx)
+			addRef(ref, c11refSrc(p.Decls, []string{call.goSrc(false)}, p.Vars, p.Ptrs, nil), len(p.Vars), len(p.Ptrs))
+			q := p
+			q.Body = []c11stmt{call}
+			progs = append(progs, q)
+			steps := []c11step{{Kind: 'd', Chunk: c11hoist(p.Decls)}, {Kind: 'e', Entry: c11Eval, Chunk: []c11item{{K: 's', S: call}}}}
+			pl := c11plan{Region: "dir-scope", Kind: "mixed", Mode: c11Eval, FS: []string{"mapfs", "dir"}[i%2], Steps: steps, GChunks: [][]c11item{q.wholeItemsImp()},
+				Vars: p.Vars, Ptrs: p.Ptrs, RefName: ref, ProgIdx: -1}
+			add(&pl)
+			progIdx++
+		}
+	}
+
 	// ------------------------------------------------------------ run implementation and reference
 	var refRes map[string]outcome
 	var refErr error
@@ -1094,7 +1224,11 @@ func runC11(args []string) error {
 	}()
 	parallelMap(len(plans), 0, func(k int) {
 		pl := plans[k]
-		pl.Obs, pl.Fin = c11run(pl.Mode, pl.Chunks, pl.Vars, pl.Ptrs, pl.FS)
+		if pl.Steps != nil {
+			pl.Obs, pl.Fin = c11runSteps(pl.Steps, pl.Vars, pl.Ptrs, pl.FS, pl.Region == "import-scope")
+		} else {
+			pl.Obs, pl.Fin = c11run(pl.Mode, pl.Chunks, pl.Vars, pl.Ptrs, pl.FS)
+		}
 	})
 	// directory form (importSrc): output only, compared with the whole evaluation
 	type dirRes struct {
@@ -1150,7 +1284,7 @@ func runC11(args []string) error {
 		}
 		pl, obsC, refC, refFinC, vsC, psC := pl, coqList(obs), coqList(refOutC), refFin.coq(), coqList(vs), coqList(ps)
 		cases = append(cases, func(memo *c11memo) string {
-			return fmt.Sprintf("(%d, %d, %s, %s, %s, %s, %s, %s, %s, %s)", pl.ID, pl.Mode, memo.chunks(pl.Chunks), vsC, psC,
+			return fmt.Sprintf("(%d, %d, %s, %s, %s, %s, %s, %s, %s, %s)", pl.ID, pl.Mode, memo.steps(pl), vsC, psC,
 				obsC, pl.Fin.coq(), memo.chunks(pl.GChunks), refC, refFinC)
 		})
 		sm.Evaluations++
@@ -1211,6 +1345,7 @@ func runC11(args []string) error {
 	if err := c11dirs(r.fork(), nDirs, sm, distinct, &id); err != nil {
 		return err
 	}
+	c11relimport(r.fork(), nRel, sm, distinct, &id)
 
 	hdr := "From Verif Require Import Lib.Str Session.Model Session.Cases.\nFrom Coq Require Import NArith.\nOpen Scope N_scope.\n"
 	per := 120
@@ -1232,7 +1367,7 @@ func runC11(args []string) error {
 	sm.DistinctNontriv = len(distinct)
 	sm.Rule = "one evaluation = one session (one interpreter fed one program through one entry point with one cut); programs: seeded declaration-ordered programs of the model language " +
 		"(int globals, a pointer kind, one-parameter functions that read/write globals and print, order-sensitive updates) x seeded cuts x {Eval, Compile+Execute, CompileAST+Execute, EvalPath files on disk and on a MapFS, Compile all then Execute all}, " +
-		"histories that redefine functions between uses, richer hand-written programs (types with methods, closures, slices, maps, loops), seeded structured main bodies (for/range/if/switch/bare blocks with local := declarations, closures over block-local and loop variables called after the block, function literals with defer, nested literals) evaluated inside func main and as top-level chunks, and packages spread over 2-4 files with initialisers that read variables and call functions of later files (EvalPath on disk and MapFS against Eval of the concatenated source and the compiled package); distinct = distinct (entry point, chunk texts); non-trivial = the session prints at least 2 lines"
+		"sessions that mix the entry points step by step (unnamed sources through Eval / Compile+Execute / CompileAST, named files through EvalPath on disk or MapFS, directories; file first then chunks, chunks then file, file-chunks-file) whose later steps use symbols and imports of earlier steps, relative imports after a named file, histories that redefine functions between uses, richer hand-written programs (types with methods, closures, slices, maps, loops), seeded structured main bodies (for/range/if/switch/bare blocks with local := declarations, closures over block-local and loop variables called after the block, function literals with defer, nested literals) evaluated inside func main and as top-level chunks, and packages spread over 2-4 files with initialisers that read variables and call functions of later files (EvalPath on disk and MapFS against Eval of the concatenated source and the compiled package); distinct = distinct (entry point, chunk texts); non-trivial = the session prints at least 2 lines"
 	keys := sortedKeys(sm.Distribution)
 	sort.Strings(keys)
 	return sm.write(*outDir)
